@@ -167,7 +167,7 @@ Proof. unfold visit1. intros ->. reflexivity. Qed.
 
 Lemma step_uniq h o : uniq (ents h) -> uniq (ents (fst (hstep h o))).
 Proof.
-  intros U. destruct o as [c|k x|ord]; cbn [hstep fst].
+  intros U. unfold hstep. destruct o as [c|k x|ord]; cbn [hstep_gen fst].
   - destruct c; cbn; first [apply uniq_put; auto | apply uniq_del; auto].
   - cbn [env ents]. unfold uniq in *. rewrite map_map.
     assert (E : map (fun x0 => e_key (if e_key x0 =? k then mkE k (e_stage x0) (env_io x (e_io x0)) match x with ETimeout => true | _ => e_timed x0 end else x0)) (ents h) = map e_key (ents h)).
@@ -193,11 +193,37 @@ Qed.
 Definition w_stale : list hop :=
   [HCall (ReadIn 0); HCall (NegOut 0); HEnv 0 EFrame; HEnv 1 EWerr;
    HPoll [0; 1];                 (* inbound first: its handshake is read and queued; the outbound fails: error *)
-   HCall (RemOut 0); HCall (RemIn 0);   (* the handler drops both substreams; the map is empty, `ready` is not *)
+   HCall (RemOut 0); HCall (RemIn 0);   (* the handler drops both substreams; the map is empty *)
    HCall (ReadIn 0);             (* a new inbound substream of the peer; nothing can be read from it yet *)
    HPoll [0]].
 
+(* the original code: `ready` still holds the result of the removed substream; the new one is reported negotiated *)
 Lemma stale_ready_run :
-  map snd (hrun hs0 w_stale) =
+  map snd (hrun0 hs0 w_stale) =
   [PPending; PPending; PPending; PPending; PErr 1; PPending; PPending; PPending; PNeg 0 true].
 Proof. vm_compute. reflexivity. Qed.
+
+(* the repaired code: the queued result went away with its substream; the new one waits for its handshake *)
+Lemma stale_ready_repaired_run :
+  map snd (hrun hs0 w_stale) =
+  [PPending; PPending; PPending; PPending; PErr 1; PPending; PPending; PPending; PPending].
+Proof. vm_compute. reflexivity. Qed.
+
+Lemma forget_not_in (k : key) (rd : bool) (r : list (key * bool)) : ~ In (k, rd) (forget k r).
+Proof. unfold forget. rewrite filter_In. cbn. rewrite N.eqb_refl. intros [_ H]. discriminate. Qed.
+
+(* every call of the owner forgets what was queued for the key it touches *)
+Lemma call_forgets (h : hs) (c : hcall) :
+  let k := match c with NegOut p | RemOut p => mkkey p true | ReadIn p | SendIn p | RemIn p => mkkey p false end in
+  forall rd, ~ In (k, rd) (ready (call h c)).
+Proof. destruct c; cbn; intros rd; apply forget_not_in. Qed.
+
+(* a removed substream is silent: the service reports nothing under its key until a substream is registered again *)
+Lemma removed_is_silent (h : hs) (p : peer) (out : bool) (ord : list key) (h' : hs) :
+  let h1 := call h (if out then RemOut p else RemIn p) in
+  (forall rd, poll h1 ord <> (h', PNeg (mkkey p out) rd)) /\ poll h1 ord <> (h', PErr (mkkey p out)).
+Proof.
+  cbv zeta. apply poll_silent.
+  - unfold has. destruct out; cbn; now rewrite find_del_same.
+  - intros rd. destruct out; apply forget_not_in.
+Qed.
